@@ -147,6 +147,10 @@ def regime(rng, cfg, first=False):
         sys['ttbr0'] = TABLES | rng.getrandbits(6)
         sys['ttbr1'] = rng.choice([TABLES, DATA, 0])
         sys['ttbcr'] = rng.choice([0, 0, 0, rng.randrange(8), rng.randrange(8) | (1 << 31 if cfg.get('have_lpae') else 0)])
+        if cfg.get('have_lpae') and rng.random() < 0.5:
+            # long-descriptor format with seeded T0SZ/T1SZ, EPDx, and every cacheability / shareability field value
+            sys['ttbcr'] = (1 << 31 | rng.choice([0, 0, 0, 1, rng.randrange(8)]) | rng.choice([0, 0, rng.randrange(8)]) << 16 | rng.getrandbits(6) << 8 | rng.getrandbits(6) << 24 |
+                            int(rng.random() < 0.1) << 7 | int(rng.random() < 0.1) << 23 | rng.getrandbits(1) << 22)
         sys['dacr'] = rng.choice([0x55555555, 0xFFFFFFFF, 1, 3, rng.getrandbits(32)])
         sys['prrr'] = rng.getrandbits(32)
         sys['nmrr'] = rng.getrandbits(32)
